@@ -14,9 +14,16 @@ def run(ctx, replay):
                        "messages, plus upstream invocations and a follow-up query for later-visible state")
     ctx.assumptions += ["TTL comparison tolerates 1 s (the twins are served milliseconds apart)",
                         "record order inside a section is not compared (sections compared as multisets)"]
+    if os.environ.get("C05_ONLY") == "ladder":   # development aid: the ladder family alone
+        sc.ladder(ctx, "C05", thorough)
+        return
     sc.run_family_models(ctx, sc.FAMILIES, thorough)
     sc.regression_model(ctx)
     sc.replay(ctx, "C05", sc.FAMILIES, num=400 if not thorough else 5000, variants=2 if not thorough else 4)
+    # the cache ladder over histories with more than one name and with time passing (family "ladder" of Serve.tla: a
+    # sibling's validated NXDOMAIN cuts the subtree above a still-cached name; failure back-offs run out; the upstream
+    # recovers): exact entry > cut > cached failure inside its back-off > miss, on the wire ladder as on the Msg ladder
+    sc.ladder(ctx, "C05", thorough)
     # the side effects both paths must agree on, as a state machine (RateLimit.tla): one token per question whatever entry
     # serves it (wire, decoded, inline pass then replay), client limiter and per-entry cache limiter alike; the same
     # history through ServeMsg only gives the same outcome
